@@ -321,6 +321,27 @@ def run(ctx):
                      dict(estimator='SCML', basis=B.tolist(), X=data['X'].tolist(), triplets_idx=data['trip_idx'].tolist(),
                           params={k: v for k, v in kw.items() if k != 'basis'}),
                      observed=dict(shape=list(L.shape), n_active=n_active, n_basis=nb, warned=warned))
+  # ---- a long run (more iterations than any 16-bit table of draws holds): the mini-batch of EVERY iteration is the fresh seeded
+  # draw of the documented scheme; a single checkpoint at the end
+  rl = np.random.default_rng(ctx.seed + 313)
+  dl = fits.make_data(rl, d=3)
+  dl = dict(dl, trip_idx=np.array([rl.choice(len(dl['X']), size=3, replace=False) for _ in range(40)]))   # inconsistent triplets: every batch matters to the end
+  Bl = rl.standard_normal((6, 3))
+  Bl = Bl / np.linalg.norm(Bl, axis=1)[:, None]
+  kwl = dict(basis=Bl, n_basis=None, beta=1e-5, gamma=5e-3, max_iter=66000, output_iter=66000, batch_size=4, random_state=int(rl.integers(0, 1000)))
+  ctx.count('long_run', 1)
+  try:
+    capl = fit_plain('SCML', kwl, dl)
+    Tl = triplet_points('SCML', kwl, dl)
+    brefl = np.random.RandomState(kwl['random_state']).randint(low=0, high=len(Tl), size=(kwl['max_iter'], kwl['batch_size']))
+    wl, marginl = reference_weights(capl['basis'], Tl, brefl, kwl['gamma'], kwl['beta'], kwl['output_iter'], batch_size=kwl['batch_size'])
+    if marginl > 1e-9 and not np.allclose(wl, capl['w'].ravel(), rtol=1e-5, atol=1e-8 * (np.abs(wl).max() + 1e-300)):
+      ctx.fail_input('documented_scheme', 'a run of 66000 iterations does not end with the weights of the documented scheme on the mini-batches '
+                     'RandomState(seed).randint(n_triplets, size=(max_iter, batch_size))', dict(estimator='SCML', params={k: (v if not isinstance(v, np.ndarray) else v.tolist()) for k, v in kwl.items()},
+                                                                                             X=dl['X'].tolist(), trip_idx=dl['trip_idx'].tolist()),
+                     observed=capl['w'].ravel().tolist(), expected=wl.tolist())
+  except Exception as ex:
+    ctx.fail_input('fit_runs', 'SCML(max_iter=66000) raises %s' % type(ex).__name__, dict(estimator='SCML'), observed=str(ex)[:200])
   if ok:
     res = ctx.run_cases('c15', HEADER, terms, per_file=6, timeout=1200)
     skipped = set()
